@@ -15,6 +15,10 @@ RULE = ('interface DAGs (2-7), classes with declarations, declarations built '
         'A; distinct by SHA-1 of the case')
 
 
+# thorough tier: coverage-guided campaigns on top of the random ones
+ATHERIS = [{'impl': 'py', 'n': 60000, 'name': 'py-atheris'},
+           {'impl': 'c', 'n': 60000, 'name': 'c-atheris'}]
+
 def configs(tier, seed):
     n = 2500 if tier == 'quick' else 40000
     return [{'name': impl + '-algebra', 'impl': impl, 'mode': 'hyp', 'n': n}
